@@ -8,7 +8,6 @@ import (
 	"sync"
 	"testing"
 
-	apiv3 "github.com/projectcalico/api/pkg/apis/projectcalico/v3"
 	"github.com/projectcalico/api/pkg/lib/numorstring"
 	"github.com/sirupsen/logrus"
 	kapiv1 "k8s.io/api/core/v1"
@@ -937,7 +936,15 @@ func (w *c29Worker) checkPolicies(specs []c29Spec, phase string) {
 					if cAllow {
 						kind = "calico-too-permissive"
 					}
-					key := fmt.Sprintf("C29:%s-%s:%s", dir, kind, strings.TrimSuffix(feat, ";"))
+					// key: direction, kind of mismatch and the most specific feature present in the policies
+					primary := "plain"
+					for _, f := range []string{"ipblock-except", "ipblock", "named-port", "port-range", "ns+pod-selector", "ns-selector", "pod-selector", "protocol-only", "port-empty-struct", "default-protocol", "multi-port", "peers-empty", "ports-empty"} {
+						if strings.Contains(","+strings.ReplaceAll(feat, ";", ",")+",", ","+f+",") {
+							primary = f
+							break
+						}
+					}
+					key := fmt.Sprintf("C29:%s-%s:%s", dir, kind, primary)
 					for _, s := range specs {
 						if s.Types == 0 && len(s.Egress) > 0 && !ingress && !cApplies && kIso {
 							key = "C29:absent-policytypes-with-egress-rules-not-egress-isolated"
